@@ -1332,6 +1332,16 @@ impl CX {
             ),
         }
     }
+    /// `cLeavesWB` of `Thm/C20CtxWb.lean`: every context-free part is built from well-behaved leaves
+    fn leaves_wb(&self) -> bool {
+        match self {
+            CX::Lift(e) => e.leaves_wb(),
+            CX::Ctx => true,
+            CX::Iif(l, r) => l.leaves_wb() && r.leaves_wb(),
+            CX::MapCtx(_, c) | CX::NoCtx(c) | CX::ManyCtx(_, c) | CX::Map(_, c) => c.leaves_wb(),
+            CX::ThenWith(_, a, b) | CX::And(_, a, b) | CX::Or2(a, b) | CX::Seq2(a, b) => a.leaves_wb() && b.leaves_wb(),
+        }
+    }
     fn depth(&self) -> usize {
         match self {
             CX::Lift(_) | CX::Ctx | CX::Iif(..) => 1,
@@ -1527,6 +1537,8 @@ fn process_c(ctx: &mut Ctx, jobs: &[CJob]) {
             let xs = j.x.sx();
             ctx.rep.bump(&format!("{}.top.{}", j.layer, j.x.name()));
             ctx.rep.bump(&format!("{}.depth{}", j.layer, j.x.depth()));
+            let wb_expected = j.x.leaves_wb();
+            ctx.rep.bump(&format!("{}.{}", j.layer, if wb_expected { "cLeavesWB" } else { "ill-behaved-part" }));
             for (idx, data) in inputs.iter().enumerate() {
                 if j.start > data.len() {
                     continue;
@@ -1549,6 +1561,34 @@ fn process_c(ctx: &mut Ctx, jobs: &[CJob]) {
                         expected: model[idx].to_string(),
                         note: "RbModel.PcCtx.runTop disagrees with the real combinator (result, position afterwards)".into(),
                     });
+                }
+                // the backtracking contract through the context combinators, on the real results (theorems
+                // runTop_mono / runTop_wb of Thm/C20CtxWb.lean): never backwards, never past the end, and over
+                // well-behaved context-free parts a soft failure leaves the input where it started
+                if let O::Ok(_, q) | O::Soft(_, q) | O::Fatal(_, q) = &got {
+                    let mut violate = |sig: String, expected: String, note: &str| {
+                        ctx.rep.fail(Failure {
+                            kind: Kind::ImplVsProperty,
+                            signature: sig,
+                            input: case_input.clone(),
+                            implementation: got_s.clone(),
+                            expected,
+                            note: note.into(),
+                        });
+                    };
+                    if *q > data.len() {
+                        violate(format!("ctxcontract:pos>len:{}", j.x.name()), format!("position <= {}", data.len()), "position past the end of the input (theorem runTop_mono)");
+                    }
+                    if *q < j.start {
+                        violate(format!("ctxcontract:moved-backwards:{}", j.x.name()), format!("position >= {}", j.start), "a parse never moves the position backwards (theorem runTop_mono)");
+                    }
+                    if wb_expected && matches!(got, O::Soft(..)) && *q != j.start {
+                        violate(
+                            format!("ctxcontract:soft-not-restored:{}", j.x.name()),
+                            format!("soft failure at position {}", j.start),
+                            "a soft failure leaves the input where it started, through the context combinators (theorem runTop_wb)",
+                        );
+                    }
                 }
                 // the data flow itself, on the real code: `l.then_with_in_context(ctx_parser(), ..)` hands the
                 // left value to the right side, which returns it without consuming
@@ -1876,6 +1916,31 @@ fn main() {
             cjobs.push(CJob { x: x.clone(), top, maxlen: 4, start: 0, layer: "ctx2" });
         }
     }
+    // depth 3, systematically: every unary context combinator over every depth-2 expression (all of them), and the
+    // binary ones with a depth-2 expression on one side and a leaf on the other (quick: every 10th, thorough: all)
+    let d2: Vec<CX> = cx.iter().filter(|x| x.depth() == 2).cloned().collect();
+    let mut d3: Vec<CX> = vec![];
+    for c in &d2 {
+        d3.extend(c_unary(c));
+    }
+    let n_d3_unary = d3.len();
+    let mut d3b: Vec<CX> = vec![];
+    for c in &d2 {
+        for l in &lv {
+            d3b.extend(c_binary(c, l));
+            d3b.extend(c_binary(l, c));
+        }
+    }
+    let n_d3_binary_all = d3b.len();
+    let stride = if thorough { 1 } else { 10 };
+    let off = (rng.below(stride as u64)) as usize;
+    let d3b: Vec<CX> = d3b.into_iter().skip(off).step_by(stride).collect();
+    let n_d3_binary = d3b.len();
+    for x in d3.iter().chain(d3b.iter()) {
+        for top in [None, Some(0u8), Some(1u8)] {
+            cjobs.push(CJob { x: x.clone(), top, maxlen: 3, start: 0, layer: "ctx3" });
+        }
+    }
     let n_rnd = if thorough { 30_000 } else { 2_000 };
     for k in 0..n_rnd {
         let x = random_cexpr(&mut rng, 3 + (k % 2));
@@ -1890,6 +1955,10 @@ fn main() {
     ctx.rep.exhaustive_parts.push(format!(
         "context layer: all {} context expressions of depth <= 2 (8 leaves; map_ctx x3, no_context, many_ctx x2, map; then_with x2, and, OrParser, seq2) x top context none/0/1 x all 121 inputs of length <= 4",
         n_cx
+    ));
+    ctx.rep.exhaustive_parts.push(format!(
+        "context layer, depth 3: all {} expressions `unary context combinator over a depth-2 context expression` and {} of the {} `binary combinator with a depth-2 expression on one side and a leaf on the other` x top context none/0/1 x all 40 inputs of length <= 3; on every real result the contract of runTop_mono / runTop_wb is evaluated directly",
+        n_d3_unary, n_d3_binary, n_d3_binary_all
     ));
     eprintln!("max ticks of a terminating run: {}", MAX_TICKS.with(|m| m.get()));
     eprintln!("total: model {:.1}s real {:.1}s", ctx.t_model, ctx.t_real);
